@@ -151,7 +151,7 @@ def qualities(draw, n, base=33):
     return good + bad if mode == 2 else bad + good
 
 
-NAME_COMMENTS = ["", "", " 1:N:0:ACGT", " 1:Y:0:ACGT", " length=25 xy", " some comment", " rc", " 2:N:18:A"]
+NAME_COMMENTS = ["", "", " 1:N:0:ACGT", " 1:Y:0:ACGT", " length=25 xy", " some comment", " rcx", " 2:N:18:A"]
 
 
 @st.composite
